@@ -473,7 +473,12 @@ func ruleC07_8(c *Ctx) {
 	desc := "a lookup that lets the invalidator skip a delete consults a set created during the same call"
 	n := 0
 	bad := ""
-	for _, fn := range c.reachableFrom(c.A.F("invalidate")) {
+	tree := c.reachableFrom(c.A.F("invalidate"))
+	inTree := map[*ssa.Function]bool{}
+	for _, fn := range tree {
+		inTree[fn] = true
+	}
+	for _, fn := range tree {
 		instrsOf(fn, func(in ssa.Instruction) {
 			if !c.An.CallsRole(in, "deleteKey") {
 				return
@@ -496,7 +501,24 @@ func ruleC07_8(c *Ctx) {
 						case *ssa.UnOp:
 							switch base := y.X.(type) {
 							case *ssa.FieldAddr:
-								if _, local := c.An.canon(base.X).(*ssa.Alloc); !local {
+								_, local := c.An.canon(base.X).(*ssa.Alloc)
+								if !local {
+									// a field of an object allocated during this invalidation (a per-call helper object
+									// handed down to its methods) is as local as a variable
+									perCall := true
+									roots := c.P.Roots(base.X, TraceOpts{NoHeapFields: true})
+									if len(roots) == 0 {
+										perCall = false
+									}
+									for _, r := range roots {
+										al, isAlloc := r.(*ssa.Alloc)
+										if !isAlloc || !inTree[al.Parent()] {
+											perCall = false
+										}
+									}
+									local = perCall
+								}
+								if !local {
 									bad = fmt.Sprintf("%s: the set consulted before the delete at %s is loaded from the field %s, which outlives the call", c.P.ShortName(fn), c.P.InstrPos(in), fieldName(base.X.Type(), base.Field))
 									return false
 								}
